@@ -330,7 +330,7 @@ reg(
         "reference 'demanded checks': chain validation is demanded unless the effective mode is CERT_NONE (cert_reqs if given, else the caller context's verify_mode, else REQUIRED) and passes iff the leaf's issuer is the CA the client was configured with (either of two CAs can be the configured one, so that trust anchors left over from an earlier connection in the same process would show); a pin replaces the hostname check; otherwise a hostname match is demanded unless assert_hostname is False, against assert_hostname / server_hostname / the requested host (brackets, zone and trailing dot removed), judged by the three-valued RFC 6125 reference of C08 with commonName disabled",
         "cert_reqs=CERT_NONE on a caller-supplied context that keeps check_hostname on is a configuration conflict the ssl module rejects with ValueError before any I/O; only 'no bytes sent' is judged there",
         "'socket closed' is observed on the server side (the handler sees EOF within 2.5 s while the harness still holds the raised exception); 'not one byte' is the number of application-data bytes the origin decrypted",
-        "under pyOpenSSL 26 the ca_cert_data-only configuration fails closed in urllib3.contrib.pyopenssl (load_verify_locations(None, None)); it is counted as an over-strict rejection, not judged",
+        "under pyOpenSSL 26 any configuration with ca_cert_data fails closed in urllib3.contrib.pyopenssl before any I/O (load_verify_locations(None, None) raises; str data is handed to BytesIO and raises TypeError); it is counted, only 'no byte sent' is judged",
         "for the https-proxy route the leg to the proxy is verified with the same mode and CA settings and comes first: no configured CA and a mode other than NONE is a must-reject; proxy-specific settings (proxy_ssl_context, proxy_assert_hostname/fingerprint) are varied by C09; client certificates and ssl_version pins are not varied",
     ],
     SHARDS={"quick": 8, "thorough": 16},
